@@ -222,7 +222,7 @@ package dataflow
 //@   modifies map(GraphNode;EdgeInfo)
 
 //@ func updateEdgeInfo
-//@   property C17
+//@   property C17 C01
 //@   requires sourceNode != nil && ref(sourceNode) != 0 && sourceNode.Out() != nil && dest != nil && ref(dest) != 0
 //@   ensures in_presence: has(dest.In(), sourceNode)
 //@   ensures in_index_is_last: dest.In()[sourceNode].Index == source.Mark.Index.Value
